@@ -80,6 +80,9 @@ CLAIMS = {
     "C35": ("other", "panic-discipline inventory over the resolved-call closure of hexane's validating load entry points (bounds/division asserts, slice indexing, macro panics, Option::unwrap, signed negation) with dominance-based discharge patterns and reviewed rows; must-pass-through: validate_after dominates CutState::track with its error leaving; C39's who-may-trust rules re-run",
             "Decides the 'loading arbitrary bytes returns a column or an error and never panics' clause structurally: every panic-capable construct on the path that validates untrusted column bytes is discharged, reviewed (tables/hexane_load_sites.tsv) or reported; every run-length segment is validated before it is accounted; the trusting decode path is reachable only where C39 allows.",
             "Level 'other': inventory with reviewed rows, for one clause of C35. Not decided: value round-trip equality and cross-type loading (runtime values), add/mul overflow asserts of debug builds on adversarial run counts, resource amplification (C17). Fired on the pinned tree: a literal-run header of i64::MIN panicked the validating loader in builds with overflow checks (fix: a46047e5f).", "DESIGN.md §9.6"),
+    "C05": ("proof", "MIR edge-dominance and provenance rules over the three functions that implement the hold-back discipline (Kahn's algorithm in ChangeQueue::pop_topo_sorted_ready, Automerge::missing_deps_from, ReadDoc::get_missing_deps) and who-may-call BatchApply::push",
+            "Finite obligation set, all discharged on every run: missing-dependency counters are incremented only under change_graph.has_change(dep)==false for deps of the change and decremented only inside the release loop; a change is released only on the true edge of `count == 0`; a hash is reported missing only when neither applied nor held and held changes' deps are followed; the search is seeded with queue and heads; only released changes reach BatchApply.",
+            "Decides the gating discipline (a necessary condition of 'held back until ready' and of 'reports exactly'), not order-independence of the final state (C01) nor the reported set as a value. Trusted: rustc MIR, the driver, rule code.", "DESIGN.md §9.7"),
     "C03": ("other", "the error-after-mutation analysis of C06 restricted to the editing calls C03 lists, plus agreement of the op set's Action->ObjType table with the make-actions the encoder writes",
             "For put, put_object, insert, insert_object, delete, increment, splice, splice_text, mark, unmark, split_block, join_block: every (mutation, later error) pair in the functions they reach is discharged, reviewed or a known finding; and every object kind put_object can create is one the op set registers.",
             "Decides only the last sentence of C03 (an invalid call changes nothing) and the object-registration clause; the sequential effect itself is runtime-valued. Known finding: ObjType::Table objects are never registered (put_object returns an unusable id).", "DESIGN.md §3 C03"),
